@@ -62,6 +62,7 @@ def s_parse_random(rng):
     s = gen.newline_variant(rng, s)
     op = {'op': rng.choice(['parse', 'parse', 'iterparse'])}
     op.update(gen.container_variants(rng, s))
+    op['via'] = rng.choice(['internal', 'public', 'codec'])     # penman.parse / PENMANCodec().parse / the internals
     return op
 
 
@@ -93,7 +94,7 @@ def s_parse_triples(rng):
             s = gen.perturb(rng, s)
     else:
         s = gen.gen_token_soup(rng)
-    op = {'op': 'parse_triples'}
+    op = {'op': 'parse_triples', 'via': rng.choice(['internal', 'public', 'codec'])}
     op.update(gen.container_variants(rng, gen.newline_variant(rng, s)))
     return op
 
@@ -123,6 +124,8 @@ def s_interpret(rng):
     op = {'op': 'interpret', 'tree': j_tree(tree), 'model': gen.gen_model(rng)}
     if maybe(rng, 0.05):
         del op['model']        # the library's own default model
+    if maybe(rng, 0.3):
+        op['via'] = 'public'   # penman.interpret
     return op
 
 
@@ -130,7 +133,8 @@ def s_decode(rng):
     s = gen.gen_penman_string(rng, wf=maybe(rng, 0.7))
     if maybe(rng, 0.2):
         s = gen.perturb(rng, s)
-    return {'op': 'decode', 's': s, 'model': gen.gen_model(rng)}
+    return {'op': 'decode', 's': s, 'model': gen.gen_model(rng),
+            'via': rng.choice(['internal', 'penman.decode', 'codec.decode'])}
 
 
 def s_configure(rng):
@@ -143,6 +147,8 @@ def s_configure(rng):
         drop_defaults(rng, op)
     elif m == 'default' and maybe(rng, 0.15):
         del op['model']
+    if op['op'] == 'configure' and maybe(rng, 0.3):
+        op['via'] = 'public'   # penman.configure
     return op
 
 
@@ -195,7 +201,8 @@ def s_model_triple(rng):
     r = gen.gen_role_probe(rng, m)
     t = (rng.choice(gen.VARS), r, rng.choice(gen.VARS + gen.CONSTS + gen.CONCEPTS + [None, 3]))
     return {'op': 'model_triple', 'model': m, 'triple': j_triple(t),
-            'vars': rng.sample(gen.VARS + ['_3', '_4'], rng.randint(0, 6))}
+            'vars': (['_'] + ['_%d' % i for i in range(2, rng.randint(2, 6))]) if maybe(rng, 0.15)
+            else rng.sample(gen.VARS + ['_3', '_4'], rng.randint(0, 6))}
 
 
 def s_dereify(rng):
@@ -244,6 +251,16 @@ def s_transform(rng):
                 g = gen.corrupt_markers(rng, g)      # e.g. the node context pushed by the second edge
         except Exception:  # noqa: BLE001
             pass
+    if maybe(rng, 0.08):
+        # every variable already follows the reifier's own naming scheme (_ , _2, _3, ...)
+        vs = sorted(g.variables(), key=str)
+        ren = {v: ('_' if i == 0 else '_%d' % (i + 1)) for i, v in enumerate(vs)}
+        if not (set(ren.values()) & {t[2] for t in g.triples if isinstance(t[2], str) and t[2] not in ren}):
+            f = lambda x: ren.get(x, x) if isinstance(x, str) else x      # noqa: E731
+            g = Graph([(f(a), r, f(b)) if r != ':instance' else (f(a), r, b) for a, r, b in g.triples], top=f(g._top),
+                      epidata={((f(a), r, f(b)) if r != ':instance' else (f(a), r, b)):
+                               [layout.Push(f(e.variable)) if isinstance(e, layout.Push) else e for e in es]
+                               for (a, r, b), es in g.epidata.items()}, metadata=g.metadata)
     name = rng.choice(['reify_edges', 'dereify_edges', 'reify_attributes', 'indicate_branches'])
     if name == 'dereify_edges' and maybe(rng, 0.7):
         try:
@@ -363,6 +380,8 @@ def gen_stream_text(rng, ngraphs=None, wf=True):
         t = gen.gen_tree(rng, wf=wf)
         md = gen.gen_metadata(rng) if maybe(rng, 0.4) else {}
         parts.append(penman.format(Tree(t, metadata=md), indent=rng.choice([None, -1, 2]), compact=maybe(rng, 0.2)))
+    if maybe(rng, 0.08):
+        parts.insert(rng.randrange(len(parts) + 1), '()')      # the empty graph: graph-level errors only
     s = rng.choice(['\n\n', '\n\n', '\n', ' ']).join(parts)
     if maybe(rng, 0.5):
         s += '\n'
